@@ -65,7 +65,13 @@ func runC08(c *ev.Ctx) {
 		d, _, err := cons.Generate(r, cfg)
 		if err != nil {
 			c.Count("other_property_discrepancy_built-event-rejected", 1)
-			return
+			if d == nil || d.Rejected == nil || len(d.Epochs) == 0 {
+				return
+			}
+			// keep going with what was generated plus the event the long-running generator refused: if a
+			// restarted instance treats it differently, that is a restart-visible difference
+			last := d.Epochs[len(d.Epochs)-1]
+			last.Events = append(last.Events, d.Rejected)
 		}
 		// the stream: per epoch a parents-first order, sprinkled with invalid clones (wrong frame, fresh id)
 		type item struct {
@@ -146,6 +152,9 @@ func runC08(c *ev.Ctx) {
 			}
 			if !okA {
 				continue
+			}
+			if A.Crit != nil {
+				break // both instances hit the same fatal condition; nothing further to compare
 			}
 			decidedNow := oa.Blocks != ""
 			if decidedNow {
